@@ -2,6 +2,8 @@ package props
 
 import (
 	"fmt"
+	"go/token"
+	"go/types"
 	"strings"
 
 	"golang.org/x/tools/go/ssa"
@@ -31,6 +33,8 @@ func errorPropagation(c *Ctx, fs []*ssa.Function, rule string) (sites, dropped i
 			}
 		}
 		ord := map[string]int{}
+		untested := 0
+		_ = untested
 		for _, b := range f.Blocks {
 			for _, in := range b.Instrs {
 				call, ok := in.(*ssa.Call)
@@ -68,6 +72,17 @@ func errorPropagation(c *Ctx, fs []*ssa.Function, rule string) (sites, dropped i
 				r.Require(used, rule, key, pos(c, in),
 					"the error of a state-changing call is never discarded on a transaction, block or genesis path (baseapp rolls back only on a returned error)",
 					"the error result of "+name+" has no use: a failure of this step is ignored and the remaining steps are committed")
+				if used {
+					// ... and it is this error that decides: no successful return is reached from the call except over the nil side of
+					// a test of this very value (testing another error variable — `if accErr != nil` after `_, err = f()` — lets the
+					// operation go on, and succeed, after the step failed)
+					if ret := untestedSuccess(w, f, call, idx); ret != nil {
+						untested++
+						r.Bad(rule, key+"|tested", pos(c, in),
+							"after a state-changing call no successful return is reached except over the nil side of a test of that call's error (or the error itself is what is returned)",
+							"the return at "+w.InstrPos(ret)+" is reached from the call without the error of "+name+" having been found nil")
+					}
+				}
 			}
 		}
 	}
@@ -111,4 +126,150 @@ func errResultUsed(call *ssa.Call, idx int) bool {
 		}
 	}
 	return false
+}
+
+// errValueOf: the SSA value holding the error result of the call (the call itself, or the extract of its error position).
+func errValueOf(call *ssa.Call, idx int) ssa.Value {
+	if call.Common().Signature().Results().Len() == 1 {
+		return call
+	}
+	if refs := call.Referrers(); refs != nil {
+		for _, x := range *refs {
+			if ex, ok := x.(*ssa.Extract); ok && ex.Index == idx {
+				return ex
+			}
+		}
+	}
+	return nil
+}
+
+// untestedSuccess: a success-capable return of f that is reachable from just after the call when every edge on which the
+// call's error is known to be nil is removed, and that does not hand the error on itself. nil when there is none.
+func untestedSuccess(w *ir.World, f *ssa.Function, call *ssa.Call, idx int) *ssa.Return {
+	ev := errValueOf(call, idx)
+	if ev == nil {
+		return nil
+	}
+	// values that carry the error on: phis it flows into, interface conversions, stores into a result local
+	carries := map[ssa.Value]bool{ev: true}
+	stored := map[*ssa.Alloc]bool{} // allocs the error is stored into
+	work := []ssa.Value{ev}
+	for len(work) > 0 {
+		v := work[len(work)-1]
+		work = work[:len(work)-1]
+		refs := v.Referrers()
+		if refs == nil {
+			continue
+		}
+		for _, r := range *refs {
+			switch x := r.(type) {
+			case *ssa.Phi:
+				if !carries[x] {
+					carries[x] = true
+					work = append(work, x)
+				}
+			case *ssa.MakeInterface:
+				if !carries[x] {
+					carries[x] = true
+					work = append(work, x)
+				}
+			case *ssa.ChangeInterface:
+				if !carries[x] {
+					carries[x] = true
+					work = append(work, x)
+				}
+			case *ssa.Store:
+				if x.Val == v {
+					if al, ok := x.Addr.(*ssa.Alloc); ok {
+						stored[al] = true
+					}
+				}
+			case *ssa.Call:
+				// wrapped: the wrapper's result stands for the error
+				if !carries[x] && ir.ErrIndexOfCall(x) >= 0 || types.Identical(x.Type(), ev.Type()) {
+					carries[x] = true
+					work = append(work, x)
+				}
+			}
+		}
+	}
+	// loads of a local the error was stored into carry it too — where the load sees that store: with a deferred call the
+	// results are spilled into locals that every return block assigns (`*r1 = nil`) and loads again
+	for al := range stored {
+		if refs := al.Referrers(); refs != nil {
+			for _, r := range *refs {
+				if u, ok := r.(*ssa.UnOp); ok && u.X == ssa.Value(al) {
+					if st := lastStoreBefore(u, al); st != nil {
+						if carries[st.Val] {
+							carries[u] = true
+						}
+						continue
+					}
+					carries[u] = true
+				}
+			}
+		}
+	}
+	nilEdges := map[[2]int]bool{}
+	tested := false
+	for _, b := range f.Blocks {
+		if len(b.Instrs) == 0 {
+			continue
+		}
+		iff, ok := b.Instrs[len(b.Instrs)-1].(*ssa.If)
+		if !ok {
+			continue
+		}
+		cond := iff.Cond
+		neg := false
+		for {
+			u, ok := cond.(*ssa.UnOp)
+			if !ok || u.Op != token.NOT {
+				break
+			}
+			cond, neg = u.X, !neg
+		}
+		bo, ok := cond.(*ssa.BinOp)
+		if !ok || bo.Op != token.EQL && bo.Op != token.NEQ {
+			continue
+		}
+		var other ssa.Value
+		switch {
+		case carries[bo.X]:
+			other = bo.Y
+		case carries[bo.Y]:
+			other = bo.X
+		default:
+			continue
+		}
+		if cst, ok := other.(*ssa.Const); !ok || cst.Value != nil {
+			continue
+		}
+		tested = true
+		nilSide := 0 // err == nil: the true successor
+		if bo.Op == token.NEQ {
+			nilSide = 1
+		}
+		if neg {
+			nilSide = 1 - nilSide
+		}
+		nilEdges[[2]int{b.Index, nilSide}] = true
+	}
+	_ = tested
+	errIdx := ir.ErrIndex(f)
+	for _, ret := range w.SuccessReturns(f) {
+		if errIdx >= 0 && errIdx < len(ret.Results) && carries[ret.Results[errIdx]] {
+			continue // the error itself is handed to the caller
+		}
+		if errIdx < 0 {
+			continue // no error to report: what the function does with a failure is judged at its own rules (panics)
+		}
+		if !ir.ReachesFrom(f, call.Block(), ir.InstrIndex(call)+1, ret, ir.Cut{}) {
+			continue
+		}
+		if ir.ReachesFrom(f, call.Block(), ir.InstrIndex(call)+1, ret, ir.Cut{Edges: nilEdges}) {
+			return ret
+		}
+	}
+	return nil
 }
